@@ -74,6 +74,27 @@ def run(ctx):
     res["coverage"]["pipeline_model_mismatches"] = len(mism)
     res["coverage"]["traces_validated_against_impl"] = n - len(mism)
     res["coverage"]["rule"] += "; every stage result also compared dump-for-dump with the Lean model of the pipeline"
+    # long straight-line code: a chain of 1 200 blocks in front of an if/else, and one inside a loop body
+    # (closed CFGs like any other; a stage that recurses per block runs out of stack here)
+    import time
+    from harness import export
+    longfails = []
+    for tag, succ in (("chain-then-diamond", tuple([(i + 1,) for i in range(1200)] + [(1201, 1202), (1203,), (1203,), ()])),
+                      ("chain-in-loop", tuple([(1,)] + [(i + 1,) for i in range(1, 1200)] + [(1, 1201), ()]))):
+        t0 = time.time()
+        try:
+            g = export.mk_scfg(succ)
+            g.join_returns()
+            g.restructure_loop()
+            g.restructure_branch()
+        except BaseException as e:  # noqa: BLE001
+            longfails.append((tag, len(succ), type(e).__name__))
+        res["coverage"].setdefault("long_straight_line_inputs", {})[tag] = {"blocks": len(succ), "seconds": round(time.time() - t0, 1)}
+    if longfails:
+        tag, nb, exc = longfails[0]
+        res["violations"].append({"signature": {"stage": "long-input", "clauses": exc},
+                                  "what": f"C02: restructuring a closed CFG with a straight-line run of 1 200 blocks ({tag}) raises {exc}",
+                                  "payload": {"shape": tag, "blocks": nb, "exception": exc, "count": len(longfails)}})
     if mism:
         succ, stage, why = min(mism, key=lambda m: (len(m[0]), m[0]))
         path = common.write_replay("C02", {"property": "C02", "kind": "correspondence-broken",
